@@ -162,6 +162,24 @@ def run(pid, tier, seed, replay):
                 f.write(open(o).read())
         runs.insert(0, ("univwalk", "Walk", up))
         exhaustive = True
+    crew_runs = None
+    if pid == "C08" and not replay:
+        # "... and as seen through a crew's reported emissions": machines whose walk for one message passes several emitting
+        # actions, some of which fail afterwards, with error handlers that emit and fail themselves, run in a real sio.Crew;
+        # what the crew reports (and the machines' states) must be what the composed model (SheensOps.tla) computes
+        sdrv = vlib.build_driver("sheensdrv", wd)
+        cout = os.path.join(wd, "emitcrew.ndjson")
+        vlib.run([sdrv, "emitcrew", str(400 if tier == "quick" else 8000), str(seed), cout], timeout=6000)
+        jd = vlib.fresh_dir(pid, "judge_emitcrew")
+        badc, statsc, tc = vlib.judge_cases(jd, "Trace_Sheens.tla", "Trace_Sheens.cfg", cout)
+        for b in badc:
+            c = b["case"]
+            rep.reject("emitcrew: the crew's reported emissions or states differ from the composed model at input(s) %s on %s" % (b.get("at"), c["raw"][:400]), b.get("sigs", []),
+                       {"property": pid, "labels": sorted(b["sheens"]), "source": "emitcrew", "at": b.get("at"), "case": {"raw": c["raw"], "steps": c["steps"]}})
+        log("  judged emitcrew with Trace_Sheens: %d crew runs, %d rejected" % (tc["lines"], len(badc)))
+        tot["generated"] += tc["generated"]
+        tot["distinct"] += tc["distinct"]
+        crew_runs = {"runs": tc["lines"], "rejected": len(badc), **statsc}
     stats_all, judged, samples = {}, 0, []
     for name, judge, path in runs:
         jd = vlib.fresh_dir(pid, "judge_" + name)
@@ -196,6 +214,6 @@ def run(pid, tier, seed, replay):
         "judge_stats": stats_all, "exhaustive": bool(exhaustive),
         "exhaustive_scope": "MC_Step universe (node shapes with <=1 branch in quick; <=2 branches, every 4th case exported, in thorough) enumerated by TLC and every exported case driven; generated cases are a seeded sample" if pid in ("C04", "C08", "C18") else ("MC_Walk: all 14,700 configurations (7x7 node shapes, message sequences <=3, limits 0..4, breakpoint on/off, 2 start bindings) explored by TLC and walked by the real engine in every split; generated walks are a seeded sample" if pid == "C05" else "seeded sample"),
         "known_findings_hit": {k: v["count"] for k, v in rep.known.items()},
-        "collections_scripts": collections,
+        "collections_scripts": collections, "crew_runs": crew_runs,
     }, ASSUME[pid], time.time() - t0, len(rep.violations))
     return rc
